@@ -9,7 +9,7 @@
    asked to fix ([clean_writes]).  What happens outside those hypotheses is stated too, as
    [_refuted] witnesses (F9, F11, F12, F13, F14 of notes/C12_report.md) and a characterisation (F10). *)
 From Coq Require Import List ZArith Bool.
-From PV Require Import C12.Model C12.Spec C12.Proofs C12.Proofs2 C12.Proofs3.
+From PV Require Import C12.Model C12.Spec C12.Proofs C12.Proofs2 C12.Proofs3 C12.Proofs4.
 Import ListNotations.
 Local Open Scope Z_scope.
 
@@ -149,6 +149,46 @@ Theorem c12_info_rcount_refuted :
 Proof. exact info_rcount_refuted. Qed.
 Print Assumptions c12_info_rcount_refuted.
 
+(* ---- the second entry point: get-torch-spect-data-dir-info [--strict | --fix N] ---- *)
+
+(* with --strict or --fix N, N <> 0: the same files afterwards and the same raise/return as
+   validate_spect_data_set on a plain data set (so every theorem above transfers) *)
+Theorem c12_cli_like_validate : forall strict fx d,
+  cli_validates strict fx = true -> classes_nonneg d ->
+  cli_info strict fx d
+  = (fst (validate cfg_plain (fixarg_of fx) d),
+     match snd (validate cfg_plain (fixarg_of fx) d) with
+     | Some e => inl e
+     | None => inr (finish (length d) (fold_left info_upd (fst (validate cfg_plain (fixarg_of fx) d)) acc0))
+     end).
+Proof. exact cli_like_validate. Qed.
+Print Assumptions c12_cli_like_validate.
+
+(* without a flag - and, as coded, with --fix 0 (F12) - nothing is ever written *)
+Theorem c12_cli_unvalidated_never_writes : forall strict fx d,
+  cli_validates strict fx = false -> fst (cli_info strict fx d) = d.
+Proof. exact cli_unvalidated_never_writes. Qed.
+Print Assumptions c12_cli_unvalidated_never_writes.
+
+(* ---- "the directory statistics report is the recount of the stored tensors" ----
+   FULL statement: for every valid directory d, cli_info strict fx d = (d, inr (recount d)).
+   It is false of the code (c12_info_total_tokens_refuted, c12_info_rcount_refuted); proved with the two
+   side conditions that exclude exactly those deviations: no reference segment is empty, and if ref/
+   exists at least one transcript is non-empty. *)
+Theorem c12_info_is_recount_partial : forall strict fx d,
+  WellFormed d -> tokens_nonneg d -> classes_nonneg d -> no_empty_segment d -> tokens_counted d ->
+  cli_info strict fx d = (d, inr (recount d)).
+Proof. exact cli_report_on_valid. Qed.
+Print Assumptions c12_info_is_recount_partial.
+
+(* and after a repair: the report is the recount of the repaired files *)
+Theorem c12_info_after_fix_is_recount_partial : forall strict fx d,
+  cli_validates strict fx = true -> tokens_nonneg d -> classes_nonneg d ->
+  WellFormed (repair fx d) -> no_empty_segment (repair fx d) -> tokens_counted (repair fx d) ->
+  cli_info strict fx d = (repair fx d, inr (recount (repair fx d))).
+Proof. exact cli_report_after_fix. Qed.
+Print Assumptions c12_info_after_fix_is_recount_partial.
+
 (* ---- "reading a reference puts the configured start and end symbols around every transcript,
         an empty one included" ---- *)
 
@@ -218,3 +258,14 @@ Proof.
   - right. split; reflexivity.
   - eexists. reflexivity.
 Qed.
+
+(* non-vacuity of the statistics theorem: a two-utterance directory whose report has every kind of entry *)
+Example c12_report_nonvacuous :
+  let f := mkFeat false DF32 [4%nat; 2%nat] in
+  let d := [mkUtt f (Some (mkAli false DI64 (A1 [0; 0; 2; 0]))) (Some (mkRef false DI64 (R2 [(1, 0, 2); (0, -1, -1); (1, 3, 4)])));
+            mkUtt f (Some (mkAli false DI64 (A1 [2; 2; 2; 2]))) (Some (mkRef false DI64 (R2 [])))] in
+  wellformedb d = true /\ tokens_nonnegb d = true /\ classes_nonnegb d = true /\
+  cli_info false None d
+  = (d, inr (mkReport 2 8 (Some 2) 2 1 3 [(3, 2); (0, 0); (5, 2)] [(-1, 1); (3, 2)])) /\
+  recount d = mkReport 2 8 (Some 2) 2 1 3 [(3, 2); (0, 0); (5, 2)] [(-1, 1); (3, 2)].
+Proof. cbv zeta. repeat split; reflexivity. Qed.
